@@ -998,11 +998,11 @@ func TestCheck(t *testing.T) {
 		"served by 8 overlapping goroutines in phases 405-only / 404-only / 202-only / mixed; only the race detector judges. "+
 		"process history family: what happened to the gateway between boot and the request table is a dimension. Configurations: every ordered list of 1..3 routes with distinct paths over the pairwise overlapping "+
 		"paths {/, /a, /a/b} (thorough: plus /ab) x {bare, inbound{} (adjacent ones share one wrapper), outbound, internal} x {pull, deliver} as far as the documented channel rules allow (6 shapes; this includes "+
-		"the non-adjacent mixes inbound A, bare B, inbound C); match part: a route with each of the 12 match shapes (bare pull / inbound{} deliver) in front of and behind an open catch-all (thorough: x 2 paths x 11 partners); "+
+		"the non-adjacent mixes inbound A, bare B, inbound C); match part: a route with each of the 12 match shapes (bare pull / inbound{} deliver) in front of and behind an open catch-all (thorough: on /a and /a/b, partners of all 6 shapes on / and /a/b); "+
 		"labelled part: lists of 2 (thorough: 2..3) routes whose file already carries application/endpoint_name on one route; thorough: lists of 1..2 routes over all 7 spellings (shorthand and wrapper twins). "+
 		"Operations on the running gateway: reload of the unchanged file (run()'s reloadNow), reload after a comment was appended, reload after a bare pull route on an unused path was appended last, reload after a "+
 		"deliver route was appended (documented restart-required), reload after the file was rewritten with the routes in the opposite order, label route #i (PUT /applications/app1/endpoints/ep1 on the Admin handler startServers wired: parse -> label -> Format -> write -> reload), unlabel (DELETE). "+
-		"Sequences per configuration of n routes: reload>reload>comment, comment>append-pull>reload, append-deliver>reload, reverse>reload>reverse, and for every i: label(i)>reload>unlabel (labelled part: unlabel>reload, reload>unlabel, label(j)>reload for j != i); "+
+		"Sequences per configuration of n routes: reload>reload>comment, comment>append-pull>reload, append-deliver>reload and reverse>reload>reverse (quick: on the 1..2-route lists), and for every i: label(i)>reload>unlabel (labelled part: unlabel>reload, reload>unlabel, label(j)>reload for j != i); "+
 		"thorough adds label(i)>label(j)>reload for all i != j, append-pull>label(i)>reload, append-deliver>label(0)>reload, unlabel>reload, and on the 1..2-route lists EVERY sequence of 2 operations over the whole alphabet. "+
 		"The request table of the main family (path(10) x method(POST, GET; PUT when a route has a method criterion), other dimensions when a matcher observes them) is served after boot and after EVERY operation; reference: the main resolver on the route list in the "+
 		"order the harness wrote it, appended routes behind it once the gateway has answered that the reload / mutation was applied (the gateway's answer decides only that; the rewritten file is never read for expectations). "+
